@@ -12,6 +12,7 @@ package app
 import (
 	"encoding/hex"
 	"fmt"
+	"io/ioutil"
 	"math/big"
 	"os"
 	"testing"
@@ -35,15 +36,15 @@ type c05xMempool struct {
 	cache map[common.Hash]types.Tx
 }
 
-func (m *c05xMempool) Reap(int) types.Txs                  { return m.txs }
-func (*c05xMempool) Update(uint64, types.Txs) error        { return nil }
+func (m *c05xMempool) Reap(int) types.Txs                    { return m.txs }
+func (*c05xMempool) Update(uint64, types.Txs) error          { return nil }
 func (m *c05xMempool) GetTxFromCache(h common.Hash) types.Tx { return m.cache[h] }
-func (*c05xMempool) Lock()                                 {}
-func (*c05xMempool) Unlock()                               {}
-func (*c05xMempool) KeyImageExists(lctypes.Key) bool       { return false }
-func (*c05xMempool) KeyImagePush(lctypes.Key) bool         { return true }
-func (*c05xMempool) KeyImageRemoveKeys([]*lctypes.Key)     {}
-func (*c05xMempool) KeyImageReset()                        {}
+func (*c05xMempool) Lock()                                   {}
+func (*c05xMempool) Unlock()                                 {}
+func (*c05xMempool) KeyImageExists(lctypes.Key) bool         { return false }
+func (*c05xMempool) KeyImagePush(lctypes.Key) bool           { return true }
+func (*c05xMempool) KeyImageRemoveKeys([]*lctypes.Key)       {}
+func (*c05xMempool) KeyImageReset()                          {}
 
 type c05xDisk struct{ state, block, cross, u1, u2, u3, br dbm.DB }
 
@@ -55,6 +56,11 @@ type c05xNode struct {
 }
 
 func TestBoundedC05BlockExec(t *testing.T) {
+	// the flat state keeps an undo log file in the working directory: work in a scratch directory, not in /repo
+	if dir, err := ioutil.TempDir("", "verifbounded"); err == nil {
+		defer os.RemoveAll(dir)
+		os.Chdir(dir)
+	}
 	sk := crypto.GenPrivKeySecp256k1()
 	metrics.PrometheusMetricInstance.Init(config.DefaultConfig(), sk.PubKey(), log.NewNopLogger())
 	metrics.PrometheusMetricInstance.SetCurrentProposerPubkey(sk.PubKey())
